@@ -273,4 +273,74 @@ Section Inv.
         destruct (two_meet (c_ri c') r0 r (in_fl_P P r Q r0 Hfl H0) Hr_in Hne M0' Mr') as [e' [Ie' Se']].
         pose proof (same_edge_trans e e' _ Se Se') as Ht. rewrite (ring_items_distinct tr _ _ e e' C2 Ie Ie' Nq) in Ht. discriminate.
   Qed.
+
+  Lemma cl_ops_nodes cl : log_nodes (map (cl_op rsym_o) cl) = [].
+  Proof. induction cl as [|c r IH]; [reflexivity|]. cbn. exact IH. Qed.
+  Lemma cl_ops_edges cl : log_edges (map (cl_op rsym_o) cl) = map cl_edge cl.
+  Proof. induction cl as [|c r IH]; [reflexivity|]. cbn [map log_edges flat_map cl_op app]. fold (log_edges (map (cl_op rsym_o) r)). now rewrite IH. Qed.
+  Lemma tree_ops_nodes r : log_nodes (tree_ops A r) = [f_new r].
+  Proof. unfold tree_ops. destruct (f_par r); reflexivity. Qed.
+  Lemma ms_snoc ri P r : ms ri (P ++ [r]) = ms ri P ++ (if meets ri r then [f_new r] else []).
+  Proof. rewrite ms_app. unfold ms at 2. cbn [filter]. destruct (meets ri r); reflexivity. Qed.
+
+  Lemma inv_step P r Q L mk3 : fl = P ++ r :: Q -> Inv P L mk3 ->
+    Inv (P ++ [r]) (L ++ tree_ops A r ++ map (cl_op rsym_o) (snd (wsim (f_new r) mk3 (rlist (f_old r)))))
+        (fst (wsim (f_new r) mk3 (rlist (f_old r)))).
+  Proof.
+    intros Hfl HI.
+    assert (Hfl' : fl = (P ++ [r]) ++ Q) by (rewrite <- app_assoc; exact Hfl).
+    assert (NDr : NoDup (rlist (f_old r))) by (apply rlist_nodup; intros e He; now apply C1).
+    pose proof (wsim_spec (f_new r) (rlist (f_old r)) mk3 NDr) as WS.
+    pose proof (closing_facts P r Q L mk3) as CF.
+    pose proof (wsim_ok3 (f_new r) (rlist (f_old r)) mk3 (i_ok3 _ _ _ HI)) as Hok.
+    destruct (wsim (f_new r) mk3 (rlist (f_old r))) as [mk3a cl]. cbn [fst snd] in *. destruct WS as (W1 & W2 & W3 & W4).
+    assert (Bnd : forall ri, (length (ms ri (P ++ [r])) <= 2)%nat) by (intros ri; apply (ms_prefix_bound ri (P ++ [r]) Q Hfl')).
+    assert (Mt : forall ri, meets ri r = true <-> In ri (rlist (f_old r))) by (intros ri; apply memn_true).
+    constructor.
+    - rewrite !log_nodes_app, tree_ops_nodes, cl_ops_nodes, app_nil_r, (i_nodes _ _ _ HI), map_app. reflexivity.
+    - exact Hok.
+    - intros ri. pose proof (Bnd ri) as B. rewrite ms_snoc in *. pose proof (i_tab _ _ _ HI ri) as K.
+      destruct (meets ri r) eqn:Em.
+      + specialize (W1 ri (proj1 (Mt ri) Em)).
+        destruct (ms ri P) as [|a [|b [|c l]]]; cbn [app] in *; rewrite ?app_length in B; cbn [length] in B; try lia.
+        * rewrite K in W1. exact W1.
+        * destruct K as [m K]. rewrite K in W1. apply W1.
+      + rewrite app_nil_r. rewrite (W2 ri) by (intros H; apply Mt in H; congruence). exact K.
+    - intros e He. rewrite !log_edges_app in He. apply in_app_or in He as [He|He]; [|apply in_app_or in He as [He|He]].
+      + destruct (i_sound _ _ _ HI e He) as [(r1 & p & H1 & H2 & ->)|(ri & n0 & c & H1 & ->)].
+        * left. exists r1, p. split; [apply in_or_app; now left|auto].
+        * right. exists ri, n0, c. split; [|reflexivity]. pose proof (Bnd ri) as B. rewrite ms_snoc in *. rewrite H1 in *.
+          destruct (meets ri r); [cbn in B; lia|now rewrite app_nil_r].
+      + left. unfold tree_ops in He. cbn [log_edges flat_map app] in He. destruct (f_par r) as [p|] eqn:Ep; [|contradiction].
+        cbn in He. destruct He as [<-|[]]. exists r, p. split; [apply in_or_app; right; now left|auto].
+      + rewrite cl_ops_edges in He. apply in_map_iff in He as [c [<- Hc]].
+        destruct (CF c Hfl HI Hc) as (A1 & A2 & A3 & _).
+        right. exists (c_ri c), (snd c), (f_new r). split.
+        * rewrite ms_snoc, A3, (proj2 (Mt (c_ri c)) A2). reflexivity.
+        * unfold cl_edge. now rewrite A1.
+    - intros r1 p H1 Hp. rewrite !log_edges_app. apply in_app_or in H1 as [H1|[<-|[]]].
+      + apply in_or_app. left. now apply (i_tree _ _ _ HI).
+      + apply in_or_app. right. apply in_or_app. left. unfold tree_ops. rewrite Hp. cbn. now left.
+    - intros ri n0 c Hm. rewrite !log_edges_app. rewrite ms_snoc in Hm. destruct (meets ri r) eqn:Em.
+      + pose proof (i_tab _ _ _ HI ri) as K. specialize (W1 ri (proj1 (Mt ri) Em)).
+        destruct (ms ri P) as [|a [|b l]]; cbn [app] in Hm; try discriminate.
+        * inversion Hm; subst. destruct K as [m K]. rewrite K in W1. destruct W1 as [_ W1].
+          apply in_or_app. right. apply in_or_app. right. rewrite cl_ops_edges. apply in_map_iff. exists (ri, f_new r, n0). split; [reflexivity|exact W1].
+        * destruct l; discriminate.
+      + rewrite app_nil_r in Hm. apply in_or_app. left. now apply (i_ring _ _ _ HI).
+  Qed.
+
+  (** the whole run *)
+  Theorem run_inv : forall Q P L mk3, fl = P ++ Q -> Inv P L mk3 ->
+    xok A rlist rsym_o L mk3 Q = true
+    /\ Inv fl (fst (xlog A rlist rsym_o L mk3 Q)) (snd (xlog A rlist rsym_o L mk3 Q)).
+  Proof.
+    induction Q as [|r Q IH]; intros P L mk3 Hfl HI.
+    - rewrite app_nil_r in Hfl. subst P. split; [reflexivity|exact HI].
+    - destruct (step_tests P r Q L mk3 Hfl HI) as (T1 & T2 & T3).
+      pose proof (inv_step P r Q L mk3 Hfl HI) as HS.
+      cbn [xok xlog]. destruct (wsim (f_new r) mk3 (rlist (f_old r))) as [mk3a cl]. cbn [fst snd] in *.
+      rewrite T1, T2, T3. cbn [andb].
+      apply (IH (P ++ [r])); [rewrite <- app_assoc; exact Hfl|exact HS].
+  Qed.
 End Inv.
